@@ -91,6 +91,44 @@ class LineBudget(object):
     except Exception:
       pass
 
+  def rescan(self):
+    """Code objects may have been replaced (atheris instruments functions in place): trace the current ones."""
+    mon = sys.monitoring
+    files = set(getattr(sys.modules[n], "__file__", None) for n in self._modules)
+    codes, seen = [], set()
+    for name in self._modules:
+      for v in list(vars(sys.modules[name]).values()):
+        self._collect(v, files, codes, seen, 0)
+    for c in codes:
+      mon.set_local_events(self._tool, c, mon.events.LINE)
+    self.n_code_objects = len(codes)
+
+  def functions(self):
+    """The plain functions defined in the traced modules (for in-place instrumentation by a fuzzer)."""
+    import types
+    out, seen = [], set()
+
+    def walk(v, depth):
+      if depth > 5 or id(v) in seen:
+        return
+      seen.add(id(v))
+      if isinstance(v, (staticmethod, classmethod)):
+        v = v.__func__
+      if isinstance(v, property):
+        for f in (v.fget, v.fset, v.fdel):
+          if f is not None:
+            walk(f, depth + 1)
+      elif isinstance(v, type):
+        if getattr(v, "__module__", None) in self._modules:
+          for x in list(vars(v).values()):
+            walk(x, depth + 1)
+      elif isinstance(v, types.FunctionType) and v.__module__ in self._modules:
+        out.append(v)
+    for name in self._modules:
+      for v in list(vars(sys.modules[name]).values()):
+        walk(v, 0)
+    return out
+
   def _collect(self, v, files, codes, seen, depth):
     if depth > 6:
       return
